@@ -32,7 +32,8 @@ TIERS = {
         "sanity": "MC_Glob_sanity.cfg",
         "gen": [("MC_Glob_quickA.cfg", ["--real-first", "7", "--real-stride", "5", "--noglob-trees", "2"]),
                 ("MC_Glob_quickB.cfg", ["--real-first", "0", "--real-stride", "6", "--noglob-trees", "1"])],
-        "random": (40, 40),
+        "random": (60, 40),
+        "shards": 4,
         "timeout": 600,
     },
     "thorough": {
@@ -41,6 +42,7 @@ TIERS = {
                 ("MC_Glob_thorB.cfg", ["--real-first", "0", "--real-stride", "10", "--noglob-trees", "1"]),
                 ("MC_Glob_thorC.cfg", ["--real-first", "7", "--real-stride", "4", "--noglob-trees", "1"])],
         "random": (400, 40),
+        "shards": 8,
         "timeout": 3000,
     },
 }
@@ -115,7 +117,13 @@ def run(tier):
 
     th = threading.Thread(target=do_sanity)
     th.start()
+    try:
+        return _run(tier, cfgs, wd, rep, seed, sanity, th, t0)
+    finally:
+        th.join()
 
+
+def _run(tier, cfgs, wd, rep, seed, sanity, th, t0):
     states = transitions = 0
     totals = {}
     samples = []
@@ -153,7 +161,7 @@ def run(tier):
     runs, per = cfgs["random"]
     trace = os.path.join(wd, "random.ndjson")
     vlib.run_harness(PKG, ["random", "--runs", str(runs), "--words", str(per), "--out", trace], timeout=cfgs["timeout"])
-    verdicts, nrec, wall = _validate_sharded(trace, 8, cfgs["timeout"])
+    verdicts, nrec, wall = _validate_sharded(trace, cfgs["shards"], cfgs["timeout"])
     recs = list(vlib.read_ndjson(trace))
     counts = {"ok": 0, "unspecified": 0, "outside": 0, "reject": 0}
     for i, rec in enumerate(recs, start=1):
